@@ -3,7 +3,7 @@
    SerialTransceiverFT12_readNextMessage, parse_su / parse_bp = the two header parsers) and the station step
    functions of Link/LinkSec.v / LinkPrim.v.  `ff v = true` is the tree with proposed_fixes/C14-short-length-field. *)
 From Coq Require Import ZArith List Bool.
-From L60870 Require Import Link.Ft12 Link.Ft12Proofs Link.LinkSec Link.LinkPrim Link.LinkProofs.
+From L60870 Require Import Link.Ft12 Link.Ft12Proofs Link.LinkSec Link.LinkPrim Link.LinkProofs Link.Ft12Bp.
 Import ListNotations.
 Local Open Scope Z_scope.
 
@@ -96,6 +96,22 @@ Theorem C14_roundtrip : forall ff alen own fc dir fcb fcv data f, 0 <= alen <= 2
   enc_var alen fc own true dir fcb fcv data = Some f ->
   parse_su ff alen own f = SuOk fc false fcb fcv (5 + alen) (lenz data) /\ user_data f (5 + alen) (lenz data) = data.
 Proof. exact parse_su_roundtrip. Qed.
+
+(* the same round trips for the parser of a balanced station / of the unbalanced primary (HandleMessageBalancedAndPrimaryUnbalanced):
+   the single character, fixed frames in both directions (PRM = 1: function code, FCB, FCV; PRM = 0: function code, DIR, DFC, ACD,
+   address) and variable frames with PRM = 1 (fields and exactly the user data given to the encoder), all address widths *)
+Theorem C14_roundtrip_balanced_single : forall ff alen, parse_bp ff alen E5 = BpAck.
+Proof. exact parse_bp_single. Qed.
+Theorem C14_roundtrip_balanced_fixed_prm : forall ff alen fc address dir fcb fcv, 0 <= alen <= 2 -> 0 <= fc < 16 ->
+  parse_bp ff alen (enc_fixed alen fc address true dir fcb fcv) = BpSec fc fcb fcv 0 0.
+Proof. exact parse_bp_fixed_prm. Qed.
+Theorem C14_roundtrip_balanced_fixed_sec : forall ff alen fc address dir acd dfc, 0 <= alen <= 2 -> 0 <= fc < 16 -> addr_in_range alen address ->
+  parse_bp ff alen (enc_fixed alen fc address false dir acd dfc) = BpPri fc dir dfc acd address 0 0.
+Proof. exact parse_bp_fixed_sec. Qed.
+Theorem C14_roundtrip_balanced_variable : forall ff alen fc address dir fcb fcv data f, 0 <= alen <= 2 -> 0 <= fc < 16 ->
+  enc_var alen fc address true dir fcb fcv data = Some f ->
+  parse_bp ff alen f = BpSec fc fcb fcv (5 + alen) (lenz data) /\ user_data f (5 + alen) (lenz data) = data.
+Proof. exact parse_bp_var_prm. Qed.
 
 (* the original parser (ff = false) answers a variable frame whose L is too small to hold the address field,
    taking the checksum octet as the address: 68 01 01 68 43 43 16 is acknowledged by station 0x43 *)
